@@ -27,7 +27,7 @@ FEATURES = [
 def _raw(ab, mode=None):
     """Abstract grammar -> (rules with library weights, V set, S)."""
     mode = mode or Mode(ab["mode"])
-    rules = [(mode.weight(w), h, tuple(b)) for w, h, b in ab["rules"]]
+    rules = [(mode.sweight(w), h, tuple(b)) for w, h, b in ab["rules"]]
     return rules, set(ab["V"]), ab["S"]
 
 
@@ -147,7 +147,19 @@ def weights(rng, mode_name, rules, V):
         return [rng.choice([0, -1, -1, -2, -3]) for _ in rules]
     if mode_name == "poly":
         return [[[1, [k]]] for k in range(len(rules))]
-    return _float_weights(rng, rules, V)
+    ws = _float_weights(rng, rules, V)
+    if mode_name == "expect":
+        # (p, r): r >= 0 arbitrary; a few rules carry (0, r) - no mass, but a
+        # non-zero first-order part (a legitimate element of the semiring)
+        out = []
+        for w, (h, b) in zip(ws, rules):
+            r = round(w * rng.choice([0, 1, len(b), 0.5, 2]), 6)
+            if rng.random() < 0.12:
+                out.append([0.0, rng.choice([0.25, 1.0])])
+            else:
+                out.append([w, r])
+        return out
+    return ws
 
 
 def grammar(rng, mode_name, tier="quick", max_rules=None, nonrecursive=False):
@@ -253,7 +265,8 @@ def named_long_string(name, rng, n):
 # presentations
 
 
-RENAMES = ["id", "int", "smallint", "tuple", "long", "mixed"]
+RENAMES = ["id", "int", "smallint", "tuple", "long", "mixed", "tokenlike"]
+TOKENLIKE = ["c", "d", "e", "f", "g", "x", "y", "z", "tok_c", "tok_b"]
 TERM_RENAMES = ["id", "id", "int", "multi"]
 
 
@@ -288,7 +301,11 @@ def presentation(rng, ab, identity=False):
     # terminals, i.e. exactly the range renumber() hands out
     base = len(ab["V"]) if tscheme == "int" else rng.choice([0, 1])
     for X, k in zip(N, sigma):
-        if scheme == "smallint":
+        if scheme == "tokenlike":
+            # nonterminals named like tokens of OTHER vocabularies (never of this one)
+            pool = [t for t in TOKENLIKE if t not in ab["V"] and ("tok_" + t) not in ab["V"]]
+            nmap[X] = pool[k] if k < len(pool) else f"nt_{k}"
+        elif scheme == "smallint":
             nmap[X] = enc(base + k)
         elif scheme == "id":
             nmap[X] = X
@@ -303,6 +320,11 @@ def presentation(rng, ab, identity=False):
     tmap = {}
     for i, a in enumerate(ab["V"]):
         tmap[a] = a if tscheme == "id" else (enc(i) if tscheme == "int" else f"tok_{a}")
+    if scheme == "tokenlike":
+        used = {v for v in tmap.values() if isinstance(v, str)}
+        for X in list(nmap):
+            if nmap[X] in used:
+                nmap[X] = "nt_" + str(nmap[X])
     split = []
     if rng.random() < 0.4 and n:
         for k in rng.sample(range(n), min(n, rng.choice([1, 1, 2]))):
@@ -327,6 +349,8 @@ def _split_weight(mode_name, w, frac):
         if len(w) >= 2:
             return [w[0]], w[1:]
         return None
+    if mode_name == "expect":
+        return [w[0] / 2, w[1] / 4], [w[0] / 2, w[1] * 3 / 4]
     w1 = math.floor(w * frac * 1e6) / 1e6
     w2 = w - w1
     if w1 <= 0 or w2 <= 0:
@@ -387,9 +411,11 @@ def build_cfg(ab, pres, mode=None):
     return cfg, tmap
 
 
-def cfg_to_raw(cfg):
-    """Library CFG -> raw (rules, V, S) for the reference evaluators."""
-    return [(r.w, r.head, tuple(r.body)) for r in cfg.rules], set(cfg.V), cfg.S
+def cfg_to_raw(cfg, mode=None):
+    """Library CFG -> raw (rules, V, S) for the reference evaluators (weights
+    converted to the reference's own arithmetic when a mode is given)."""
+    conv = mode.to_shadow if mode is not None else (lambda w: w)
+    return [(conv(r.w), r.head, tuple(r.body)) for r in cfg.rules], set(cfg.V), cfg.S
 
 
 # ---------------------------------------------------------------------------
@@ -493,3 +519,22 @@ def cap_ambiguity(ab, strs, cap=300):
     alg = ref.Alg(0, 1, exact=True)
     null = ref.ref_null(rules, V, alg)
     return [x for x in strs if ref.ref_inside(rules, V, ab["S"], tuple(x), alg, null=null) <= cap]
+
+
+def prelude(what=0):
+    """Earlier, unrelated library activity in the same process over a LARGER
+    vocabulary (another grammar's language model was built and queried before
+    the one under test).  Results are ignored."""
+    from genlm.grammar import CFG, Boolean, Float
+    from genlm.grammar.cfglm import BoolCFGLM
+    from genlm.grammar.parse.earley import EarleyLM
+
+    text = ("0.2: S -> a S b\n0.1: S -> c S d\n0.1: S -> e f g\n0.1: S -> x y z\n0.1: S -> tok_a tok_b tok_c\n"
+            "0.2: S -> S S\n0.2: S ->")
+    if what % 2 == 0:
+        BoolCFGLM(CFG.from_string(text, Float)).p_next(("a",))
+    else:
+        EarleyLM(CFG.from_string(text, Float)).p_next(("c",))
+    if what % 3 == 0:
+        g = CFG.from_string(text.replace("0.", "1."), Float).map_values(lambda x: Boolean.one, Boolean)
+        g.prefix_grammar
